@@ -370,10 +370,13 @@ func (r *runner) heldNode(p *parked) bool {
 var softExpired int32
 
 func softWait() time.Duration {
+	// generous: on an overloaded machine a rendezvous between two runnable goroutines can take long, and an
+	// expiry here becomes a missing PeersDelivered line, i.e. a verdict. Only code that really drops a
+	// delivery pays this wait (once in full, briefly afterwards).
 	if atomic.LoadInt32(&softExpired) != 0 {
-		return 300 * time.Millisecond
+		return time.Second
 	}
-	return 3 * time.Second
+	return 30 * time.Second
 }
 
 // what the driver holds
@@ -410,7 +413,7 @@ func (r *runner) counts() (gp, an, auto, undeliv, gatedNow int) {
 // owed has arrived there.  Used for scheduling only; no verdict depends on it.
 func (r *runner) quiesce(a *dht.Announce) error {
 	start := time.Now()
-	deadline := start.Add(10 * time.Second)
+	deadline := start.Add(45 * time.Second)
 	stable := 0
 	last := [3]int{-1, -1, -1}
 	for {
